@@ -13,8 +13,12 @@ import Mahotas.Proofs.C13Filter
 import Mahotas.Proofs.C13Oracles
 import Mahotas.Proofs.C13OraclesNum
 import Mahotas.Proofs.C13OraclesFloat
+import Mahotas.Proofs.C13Wrappers
+import Mahotas.Proofs.C13Rounded
+import Mahotas.Proofs.C13RoundedP
+import Mahotas.Proofs.C13Perimeter
 import Mahotas.Proofs.Modes
-open Mahotas Mahotas.C13
+open Mahotas Mahotas.C13 Mahotas.C05
 
 /-- **C13-T1 (fold_eq, generic).** For every value type, operation `f`, identity `start`, number of
 labels `n` and list of `(value, label)` pixels in scan order: slot `l < n` of the model of `labeled_foldl`
@@ -546,3 +550,226 @@ theorem C13_mode_codes_agree (m : Mahotas.Mode) :
     (Mahotas.Generated.pyModes.lookup m.name = some m.code ∧ Mahotas.Generated.cppModes.lookup m.name = some m.code) ∧
     Mahotas.Generated.pyModes.length = 6 ∧ Mahotas.Generated.cppModes.length = 6 :=
   ⟨Mahotas.mode_codes_agree m, Mahotas.mode_tables_complete.1, Mahotas.mode_tables_complete.2.1⟩
+
+/-! ## Round 4 — the Python wrappers around the kernels (`bbox.py`, `labeled.py`, `histogram.py`) -/
+
+/-- **C13 (remove_regions_where).** The model of `remove_regions_where(labeled, conditions)` — `np.where(conditions)`
+(the indices of the true entries) handed to the model of `remove_regions` (`np.unique` + `std::binary_search`) — zeroes
+exactly the pixels whose label `v` satisfies `0 ≤ v < len(conditions)` and `conditions[v]`; every other pixel (labels beyond
+the table, negative labels, background) keeps its value. Any `conditions` (empty, shorter or longer than the label range). -/
+theorem C13_remove_regions_where_spec (labels conds : List Int) :
+    removeRegionsWhere labels conds = removeRegionsWhereSpec labels conds :=
+  removeRegionsWhere_eq_spec labels conds
+
+/-- **C13 (is_same_labeling, unequal shapes).** The wrapper's answer (`shape0 != shape1 → False`, else the kernel) is `true`
+exactly when the two maps have the same shape and their label pairs together with `(0, 0)` form a partial bijection; the
+executable oracle `sameSpecShaped` the harness judges against is the model. Maps of different shapes — also of equal size,
+e.g. `(2,3)` against `(3,2)` — are never the same labeling. -/
+theorem C13_same_labeling_shaped_iff (s0 s1 : List Nat) (a b : List Int) :
+    (isSameLabelingShaped s0 s1 a b = true ↔ s0 = s1 ∧ PBij (fun x y => (x = 0 ∧ y = 0) ∨ (x, y) ∈ a.zip b)) ∧
+    sameSpecShaped s0 s1 a b = isSameLabelingShaped s0 s1 a b := by
+  constructor
+  · unfold isSameLabelingShaped
+    rw [Bool.and_eq_true, beq_iff_eq, C13_same_labeling_iff]
+  · unfold isSameLabelingShaped sameSpecShaped
+    rw [C13_same_oracle_eq_model]
+
+/-- **C13 (labeled_size through `astype(uint32)`).** For every label list (any integers): the model of `labeled_size` —
+reduce modulo 2^32, then `compute_histogram` into `max + 1` bins, also for a bool map — returns in bin `i` the number of
+pixels whose label is `i` modulo 2^32 (`countSpec`); for labels in `[0, 2^32)` (every map `label()` produces) that is the
+number of pixels labelled `i`, and there are `max + 1` bins. -/
+theorem C13_labeled_size_counts (vals : List Int) :
+    countSpec (vals.map (· % 4294967296)) (labeledSize vals).length = labeledSize vals ∧
+    ((∀ v ∈ vals, 0 ≤ v ∧ v < 4294967296) →
+      countSpec vals ((maxOf vals).toNat + 1) = labeledSize vals) := by
+  refine ⟨labeledSize_counts vals, fun hv => ?_⟩
+  have h := labeledSize_counts vals
+  rw [map_emod_id vals hv] at h
+  have hl : (labeledSize vals).length = (maxOf vals).toNat + 1 := by
+    unfold labeledSize
+    rw [map_emod_id vals hv]
+    unfold fullHistogram
+    simp only [Bool.false_eq_true, if_false, Array.length_toList, histogram_size]
+  rw [← hl]
+  exact h
+
+/-- **C13 (labeled_sum with `minlength`).** The wrapper allocates `foldLen = max(labeled.max() + 1, minlength)` slots
+(`labeled.max() + 1` without `minlength`), so the result covers every label and has at least `minlength` entries; and in
+the model of `labeled_foldl` (any value type, operation and identity — the driver's `Int` and `Float` instances included)
+every slot beyond the largest label holds the identity element (0 for `labeled_sum`): no pixel carries that label. -/
+theorem C13_labeled_sum_minlength {α : Type} (f : α → α → α) (start : α) (data : List α) (labels : List Int)
+    (ml : Option Int) :
+    ((maxOf labels + 1).toNat ≤ foldLen labels ml ∧ (∀ m, ml = some m → m.toNat ≤ foldLen labels ml) ∧
+      (ml = none → foldLen labels ml = (maxOf labels + 1).toNat)) ∧
+    ∀ l : Nat, l < foldLen labels ml → maxOf labels < (l : Int) →
+      (labeledFold f start (foldLen labels ml) (data.zip labels))[l]? = some start := by
+  refine ⟨foldLen_ge labels ml, fun l hl hgt => ?_⟩
+  rw [labeledFold_slot f start _ _ l hl, valuesOf_nil_of_gt data labels l hgt]
+  rfl
+
+/-- **C13 (bbox with `border`, `as_slice`, croptobbox).** Let `box = [lo_0, hi_0, lo_1, hi_1, …]` be a list of non-negative
+numbers (the result of `bbox`, characterised by `C13_bbox_result`/`C13_bbox_oracle_sound`) and `b ≥ 0`. The model of
+`croptobbox(img, border=b)` — `bbox`'s arithmetic `(max(lo - b, 0), hi + b)` (upper end not clipped), Python's slice
+semantics per axis (`sliceBound`: clipping to the axis length) and the indexing `img[slices]` — shows exactly the pixels
+`p` of the image with `lo_d - b ≤ p_d < hi_d + b` on every axis, in C order: the box grown by `b` and clipped to the image.
+In particular (`b = 0`) the crop contains every pixel of the box, hence every non-zero pixel. -/
+theorem C13_croptobbox_border_spec (shape : List Nat) (box : List Int) (b : Int) (hb : 0 ≤ b)
+    (hlen : box.length = 2 * shape.length) (hnn : ∀ k, 0 ≤ box.getD k 0) :
+    (cropTo shape (bboxBorder box b)).2 = cropSpec shape box b :=
+  cropTo_eq_spec shape box b hb hlen hnn
+
+/-- **C13 (croptobbox end to end).** For every image of rank ≥ 1 that fills its shape and every `border = b ≥ 0`: the
+pixels `croptobbox(img, border=b)` shows — computed by the models of `bbox` (generic loop; the C-contiguous 2-D fast path
+is equal by `C13_bbox_fast_eq_generic`), of the border arithmetic, and of Python slicing — are exactly the pixels within `b`
+of the returned box on every axis (clipped to the image), and **every non-zero pixel of the image is among them**. (For an
+all-zero image the box is `[0,0,…]` and the crop is the leading `b × … × b` corner: what the code does.) -/
+theorem C13_croptobbox_contains_nonzero (shape : List Nat) (data : List Int) (hlen : data.length = shapeSize shape)
+    (hnd : 0 < shape.length) (b : Int) (hb : 0 ≤ b) :
+    (cropTo shape (bboxBorder (bboxGeneric shape data) b)).2 = cropSpec shape (bboxGeneric shape data) b ∧
+    ∀ i, i < data.length → data.getD i 0 ≠ 0 → i ∈ cropSpec shape (bboxGeneric shape data) b :=
+  croptobbox_contains shape data hlen hnd b hb
+
+/-! non-vacuity of the round-4 wrapper theorems: concrete evaluations (a 3 × 4 image whose box `[1,2,1,3]` is grown by 1 and
+    clipped; negative border through Python's negative-index rule; labels beyond 2^32; a `conditions` table shorter than the
+    label range; equal-size maps of different shapes) -/
+example : bboxBorder [1, 2, 1, 3] 1 = [0, 3, 0, 4] ∧ bboxBorder [1, 2, 1, 3] 5 = [0, 7, 0, 8] ∧
+    cropTo [3, 4] (bboxBorder [1, 2, 1, 3] 1) = ([3, 4], [0, 1, 2, 3, 4, 5, 6, 7, 8, 9, 10, 11]) ∧
+    cropTo [3, 4] [1, 2, 1, 3] = ([1, 2], [5, 6]) ∧ cropSpec [3, 4] [1, 2, 1, 3] 0 = [5, 6] ∧
+    cropTo [4, 5] (bboxBorder [1, 3, 2, 5] (-3)) = ([0, 0], []) ∧ sliceBound 5 (-1) = 4 ∧ sliceBound 5 9 = 5 ∧
+    labeledSize [4294967297, 0, 1] = [1, 2] ∧ labeledSize [1, 0, 1] = [1, 2] ∧
+    foldLen [0, 2, 2] (some 5) = 5 ∧ foldLen [0, 2, 2] none = 3 ∧ foldLen [0, 2, 2] (some (-5)) = 3 ∧
+    isSameLabelingShaped [2, 3] [3, 2] [1, 0, 1, 2, 2, 0] [1, 0, 1, 2, 2, 0] = false ∧
+    isSameLabelingShaped [2, 3] [2, 3] [1, 0, 1, 2, 2, 0] [5, 0, 5, 7, 7, 0] = true := by
+  decide
+
+example : removeRegionsWhere [0, 1, 1, 2, 2, 3] [0, 1, 0] = [0, 0, 0, 2, 2, 3] := by
+  rw [C13_remove_regions_where_spec]; decide
+
+/-! ## Round 4 — the floating-point instances over the binary64 rounding model (`Proofs/C05Binary64.lean`)
+
+The round-3 theorems `C13_labeled_sum_float_oracle_eq_model_of_exact` / `C13_com_float_oracle_eq_model_of_exact` assume
+"every accumulation step is exact" as an IEEE fact about Lean's opaque `Float`. Below, the same polymorphic definitions
+(`labeledFold`, `comModelG`) are run with correctly rounded rational arithmetic and that fact is a theorem. -/
+
+/-- **C13 (binary64 is exact on dyadic data).** Round-to-nearest with a 53-bit significand — any tie rule (`rndBin n`), in
+particular IEEE `roundTiesToEven` (`rne53`) — returns every dyadic rational `k / 2^s` with `|k| ≤ 2^53` unchanged, for every
+scale `s`; and every abstract `Rounding` (monotone, relative error ≤ 2^-53, exact on integers up to 2^53) does so for `s = 0`
+(integer-valued data). Exponent range unbounded (no overflow/underflow is modelled). -/
+theorem C13_binary64_exact_on_dyadic (s : ℕ) :
+    ExactDyadic rne53 s ∧
+    (∀ (n : ℚ → ℤ), (∀ y, |(n y : ℚ) - y| ≤ 1 / 2) → ExactDyadic (rndBin n) s) ∧
+    (∀ rnd : ℚ → ℚ, Rounding rnd → ExactDyadic rnd 0) :=
+  ⟨exactDyadic_rne53 s, fun n hn => exactDyadic_rndBin n hn s, exactDyadic_of_rounding⟩
+
+/-- **C13 (labeled_sum in rounded arithmetic = exact sum).** `sumRounded rnd` is `labeledFold` — the definition the driver runs
+at `Float` — with the addition `rnd (a + r)` over ℚ. For every rounding exact on the dyadics of scale `s` (`rne53`, any
+`rndBin n`; any `Rounding` when `s = 0`), data `k_i / 2^s` and label `l < n`: if every partial sum (in scan order) of the
+integers `k_i` labelled `l` has magnitude at most `2^53`, then **no accumulation step rounds**: slot `l` is exactly
+`(Σ k_i) / 2^s`, which is the `l`-th entry of the harness' oracle `(foldSpec false "sum" …).map (· / 2^s)`. This discharges
+the exactness hypothesis of `C13_labeled_sum_float_oracle_eq_model_of_exact` in the rounding model — it is the fact the
+harness relies on when it feeds `k/8` data (`s = 3`) and compares bit-for-bit. -/
+theorem C13_labeled_sum_rounded_exact (rnd : ℚ → ℚ) (s : ℕ) (hr : ExactDyadic rnd s) (n : Nat)
+    (data labels : List Int) (l : Nat) (hl : l < n)
+    (hb : ∀ pre a rest, valuesOf (data.zip labels) (l : Int) = pre ++ a :: rest →
+      |((a + pre.sum : Int) : ℚ)| ≤ 2 ^ 53) :
+    (sumRounded rnd n ((data.map (dy s)).zip labels))[l]? = some (dy s (valuesOf (data.zip labels) (l : Int)).sum) ∧
+    (sumRounded rnd n ((data.map (dy s)).zip labels))[l]? =
+      ((foldSpec false "sum" n (data.zip labels)).map (dy s))[l]? :=
+  sumRounded_exact rnd s hr n data labels l hl hb
+
+/-- **C13 (labeled_sum in rounded arithmetic, sufficient bound).** The same conclusion when the absolute values of the
+integers labelled `l` sum to at most `2^53` (the harness: `|k| ≤ 400`, at most 216 pixels). -/
+theorem C13_labeled_sum_rounded_exact_of_abs_sum (rnd : ℚ → ℚ) (s : ℕ) (hr : ExactDyadic rnd s) (n : Nat)
+    (data labels : List Int) (l : Nat) (hl : l < n)
+    (hb : ((valuesOf (data.zip labels) (l : Int)).map fun v => |v|).sum ≤ 2 ^ 53) :
+    (sumRounded rnd n ((data.map (dy s)).zip labels))[l]? = some (dy s (valuesOf (data.zip labels) (l : Int)).sum) ∧
+    (sumRounded rnd n ((data.map (dy s)).zip labels))[l]? =
+      ((foldSpec false "sum" n (data.zip labels)).map (dy s))[l]? :=
+  sumRounded_exact rnd s hr n data labels l hl (partial_sums_bounded _ hb)
+
+/-- **C13 (center_of_mass in rounded arithmetic = correctly rounded exact centroid).** `comModelG (rndOps rnd)` is the
+definition the driver runs with `Float` operations, run with `rnd (a + b)`, `rnd (a * b)`, `rnd (a / b)`, `rnd c` over ℚ.
+For a rounding exact on the dyadics of scale `s` and on the integers (`rne53`, any `rndBin n`), data `k_i / 2^s`,
+non-negative labels (`[]` = no label map): if the coordinates, every product `k_i · coord_j`, and every partial sum (scan
+order, per label) of the `k_i` and of the `k_i · coord_j` have magnitude at most `2^53`, then both accumulations of the
+kernel are exact and the only rounding is the final division: every output entry is `rnd (Σ k·coord_j / Σ k)`, the
+correctly rounded exact centroid (the scale cancels; rows of empty labels give `rnd (0/0) = rnd 0`). This discharges the
+hypotheses of `C13_com_float_oracle_eq_model_of_exact` in the rounding model. -/
+theorem C13_com_rounded_exact (rnd : ℚ → ℚ) (s : ℕ) (hr : ExactDyadic rnd s) (hr0 : ExactDyadic rnd 0)
+    (shape : List Nat) (ks labels : List Int) (hnn : ∀ v ∈ labels, 0 ≤ v)
+    (hc : ∀ i j, (((unravel shape i).getD j 0 : Nat) : ℚ) ≤ 2 ^ 53)
+    (hprod : ∀ i j, |((ks.getD i 0 * ((unravel shape i).getD j 0 : Nat) : Int) : ℚ)| ≤ 2 ^ 53)
+    (htot : ∀ (l : Nat) (pre : List Nat) (i : Nat) (rest : List Nat),
+      ((List.range ks.length).filter fun i => labels.getD i 0 == (l : Int)) = pre ++ i :: rest →
+      |(((pre.map fun i => ks.getD i 0).sum + ks.getD i 0 : Int) : ℚ)| ≤ 2 ^ 53)
+    (hrow : ∀ (l j : Nat), j < shape.length → ∀ (pre : List Nat) (i : Nat) (rest : List Nat),
+      ((List.range ks.length).filter fun i => labels.getD i 0 == (l : Int)) = pre ++ i :: rest →
+      |(((pre.map fun i => ks.getD i 0 * ((unravel shape i).getD j 0 : Nat)).sum +
+          ks.getD i 0 * ((unravel shape i).getD j 0 : Nat) : Int) : ℚ)| ≤ 2 ^ 53) :
+    comModelG (rndOps rnd) shape (ks.map (dy s)) labels =
+      (comSpec shape ks labels).map fun nd => rnd ((nd.1 : ℚ) / (nd.2 : ℚ)) :=
+  comRounded_exact rnd s hr hr0 shape ks labels hnn hc hprod htot hrow
+
+/-- **C13 (labeled_sum accumulated in binary32 / any `p`-bit format).** The kernel's accumulator has the dtype of the image
+(`float` for float32 images). For round-to-nearest with a `p ≥ 1`-bit significand and any tie rule (`rndBinP p n`; `p = 24` is
+binary32, `p = 53` is `rndBin`: `rndBinP_53`) every dyadic `k / 2^s` with `|k| ≤ 2^p` is returned unchanged, and therefore the
+model of `labeled_sum` run with the addition `rnd (a + r)` in that format on data `k_i / 2^s` returns in slot `l` exactly
+`(Σ k_i) / 2^s` — the harness' oracle — whenever every partial sum (scan order) of the integers labelled `l` has magnitude at
+most `2^p` (the judge masks a float32 slot whose `Σ |k_i|` exceeds `2^24`; the generator stays far below). -/
+theorem C13_labeled_sum_rounded_exact_any_precision (p : ℕ) (hp : 1 ≤ p) (nr : ℚ → ℤ)
+    (hn : ∀ y, |(nr y : ℚ) - y| ≤ 1 / 2) (s : ℕ) (n : Nat) (data labels : List Int) (l : Nat) (hl : l < n)
+    (hb : ∀ pre a rest, valuesOf (data.zip labels) (l : Int) = pre ++ a :: rest →
+      |((a + pre.sum : Int) : ℚ)| ≤ 2 ^ p) :
+    ExactDyadicB (rndBinP p nr) s (2 ^ p) ∧
+    (sumRounded (rndBinP p nr) n ((data.map (dy s)).zip labels))[l]? =
+      some (dy s (valuesOf (data.zip labels) (l : Int)).sum) ∧
+    (sumRounded (rndBinP p nr) n ((data.map (dy s)).zip labels))[l]? =
+      ((foldSpec false "sum" n (data.zip labels)).map (dy s))[l]? :=
+  ⟨exactDyadicB_rndBinP p hp nr hn s,
+   sumRounded_exactB _ s _ (exactDyadicB_rndBinP p hp nr hn s) n data labels l hl hb⟩
+
+/-! non-vacuity: binary32 with ties-to-even leaves `5/8` and `-(2^24)/8` unchanged -/
+example : rndBinP 24 roundEven ((5 : ℤ) / 2 ^ 3) = (5 : ℤ) / 2 ^ 3 ∧
+    rndBinP 24 roundEven (((-(2 ^ 24) : ℤ) : ℚ) / 2 ^ 3) = ((-(2 ^ 24) : ℤ) : ℚ) / 2 ^ 3 :=
+  ⟨exactDyadicB_rndBinP 24 (by norm_num) roundEven roundEven_near 3 5 (by norm_num),
+   exactDyadicB_rndBinP 24 (by norm_num) roundEven roundEven_near 3 (-(2 ^ 24)) (by norm_num)⟩
+
+/-! non-vacuity: binary64 `roundTiesToEven` on the harness' scale (`k/8`), label 1 of a three-pixel image: the rounded
+    fold returns exactly `(3 - 5)/8` -/
+example : (sumRounded rne53 2 (([3, -5, 12].map (dy 3)).zip [1, 1, 0]))[1]? = some (dy 3 (-2)) := by
+  have h := (C13_labeled_sum_rounded_exact_of_abs_sum rne53 3 (exactDyadic_rne53 3) 2 [3, -5, 12] [1, 1, 0] 1
+    (by decide) (by
+      have : valuesOf (([3, -5, 12] : List Int).zip [1, 1, 0]) ((1 : Nat) : Int) = [3, -5] := by decide
+      rw [this]; norm_num)).1
+  have hv : valuesOf (([3, -5, 12] : List Int).zip [1, 1, 0]) ((1 : Nat) : Int) = [3, -5] := by decide
+  rw [hv] at h
+  exact h
+
+/-! ## Round 4 — `labeled.perimeter` -/
+
+/-- **C13 (labeled.perimeter, the discrete part).** For a 2-D image with non-empty axes (any border mode and element handed
+to `bwperim`): the model of `perimeter` — `bwperim` through `fix_offset`, the 3×3 convolution with the mask
+`[[10,2,10],[2,1,2],[10,2,10]]` in `reflect` mode, `fullhistogram` (`max + 1` bins) and the sums of the first 34 bins per
+weight of the table `_perimeter_values` — yields exactly the numbers `[n1, n2, n3]` of perimeter pixels (per the proved
+`bwperimSpec`) that the direct rule classifies as weight 1 (`a ∈ {2,3}` edge neighbours on the perimeter and `d ≤ 2` diagonal
+ones), weight √2 (`(a,d) ∈ {(0,2),(1,3)}`) and weight (1+√2)/2 (`a = 1`, `d ∈ {1,2}`), neighbours taken by the mathematical
+`reflect` rule; every other pixel has weight 0 (in particular bins ≥ 34 — e.g. `a = 2, d = 3` — are dropped by the code).
+The returned float is `n1 + n2·√2 + n3·(1+√2)/2` evaluated in double (compared with a tolerance by the harness). -/
+theorem C13_perimeter_counts_spec (m : Mode) (shape : List Nat) (bw : List Int) (offs : List (List Int))
+    (hs : ∀ d ∈ shape, 0 < d) : perimeterCounts m shape bw offs = perimeterCountsSpec m shape bw offs :=
+  perimeterCounts_eq_spec m shape bw offs hs
+
+/-- **C13 (labeled.perimeter, the weight table).** Every histogram bin `c + 2a + 10d` the convolution can produce (`c ≤ 1`
+centre, `a ≤ 4` edge and `d ≤ 4` diagonal neighbours on the perimeter; the decomposition is unique because `c + 2a ≤ 9`) has
+in the code's table `[5,7,15,17,25,27] ↦ 1, [21,33] ↦ √2, [13,23] ↦ (1+√2)/2` exactly the class of the direct rule on
+`(c, a, d)`; a pixel off the perimeter (`c = 0`) never counts. -/
+theorem C13_perimeter_class_table (c a d : Nat) (hc : c ≤ 1) (ha : a ≤ 4) (hd : d ≤ 4) :
+    perimClass (c + 2 * a + 10 * d) = perimClassAD c a d ∧ perimClassAD 0 a d = 0 :=
+  ⟨perimClass_AD c a d hc ha hd, by unfold perimClassAD; simp⟩
+
+/-! non-vacuity: the table, the mask, and two small images (a 2 × 2 anti-diagonal pair seen through `reflect`; the centre of a 3 × 3 diagonal) -/
+example : perimClassAD 1 2 0 = 1 ∧ perimClassAD 1 1 3 = 2 ∧ perimClassAD 1 1 2 = 3 ∧ perimClassAD 1 2 3 = 0 ∧
+    perimClass 33 = 2 ∧ perimClass 35 = 0 ∧ perimMagic [1, -1] = 10 ∧ perimMagic [0, 1] = 2 ∧ perimMagic [0, 0] = 1 ∧
+    perimAt [2, 2] [true, false, false, true] 0 [1, 1] = 1 ∧ perimAt [2, 2] [true, false, false, true] 0 [-1, -1] = 1 ∧
+    perimCls [2, 2] [true, false, false, true] 0 = 1 ∧ perimCls [3, 3] [true, false, false, false, true, false, false, false, true] 4 = 2 := by
+  decide
